@@ -45,8 +45,8 @@ DESCR = {'C18': 'ANSI emulator: total, shape-preserving, chunk-independent',
 DUMPS = {
     ('C19', 'quick'): [(1, 1, 'Chars3', 2, 0), (1, 2, 'Chars3', 2, 0), (2, 1, 'Chars3', 2, 0), (2, 2, 'Chars2', 1, 0)],
     ('C19', 'thorough'): [(1, 1, 'Chars3', 2, 0), (1, 2, 'Chars3', 2, 0), (2, 1, 'Chars3', 2, 0), (1, 3, 'Chars3', 2, 0),
-                          (3, 1, 'Chars3', 2, 0), (2, 2, 'Chars3', 1, 0), (3, 2, 'Chars2', 1, 3), (2, 3, 'Chars2', 1, 3)],
-    ('C18', 'quick'): [(1, 1, 'Chars3', 1, 0, 3), (1, 2, 'Chars3', 1, 0, 2), (2, 1, 'Chars3', 1, 0, 2), (2, 2, 'Chars3', 1, 9, 3)],
+                          (3, 1, 'Chars3', 2, 0), (2, 2, 'Chars3', 1, 0)],
+    ('C18', 'quick'): [(1, 1, 'Chars3', 1, 0, 3), (1, 2, 'Chars3', 1, 0, 2), (2, 1, 'Chars3', 1, 0, 2), (2, 2, 'Chars3', 1, 8, 3)],
     ('C18', 'thorough'): [(1, 1, 'Chars3', 1, 0, 3), (1, 2, 'Chars3', 1, 0, 3), (2, 1, 'Chars3', 1, 0, 3),
                           (2, 2, 'Chars2', 1, 0, 2), (2, 2, 'Chars3', 1, 11, 3), (3, 2, 'Chars3', 1, 9, 3)],
 }
@@ -153,12 +153,19 @@ class Graph(object):
                         self.init = ids[x]
         if any(s is None for s in self.states):
             raise tlc.TLCError('state graph %s: node without a label' % path)
+        # TLC writes the graph in a worker-dependent order: everything that is chosen per test (variant of the character
+        # arguments, sampled argument tuples) is derived from these order-independent hashes (PYTHONHASHSEED is fixed)
+        self.nh = [hash(st) & 0x3fffffff for st in self.states]
+        self.lh = [hash(l) & 0x3fffffff for l in self.labels]
         # nondeterministic steps: (pre, label) -> set of allowed post-states
         self.nd = {}
         for i in range(len(self.pre)):
             n = self.labels[self.lab[i]]
             if n[0] == 'ScrollScreenRows' or (n[0] in ('Feed', 'BFeed') and n[1][0] == 'r'):
                 self.nd.setdefault((self.pre[i], self.lab[i]), set()).add(self.post[i])
+
+    def vi(self, i):
+        return (self.nh[self.pre[i]] * 31 + self.lh[self.lab[i]]) & 0x3fffffff
 
     def expected(self, i):
         k = (self.pre[i], self.lab[i])
@@ -424,7 +431,7 @@ def _screen_worker(rng_):
     col, objs = Collector(), Objects()
     for i in range(lo, hi):
         name, args = g.labels[g.lab[i]]
-        screen_transition(objs, R, C, g.states[g.pre[i]], name, args, i, g.expected(i), col)
+        screen_transition(objs, R, C, g.states[g.pre[i]], name, args, g.vi(i), g.expected(i), col)
     return col
 
 
@@ -434,9 +441,9 @@ def _accessor_worker(rng_):
     os.chdir(_G['cwd'])
     col, objs = Collector(), Objects()
     for i in range(lo, hi):
-        vi = i % len(SVARIANTS)
+        vi = g.nh[i] % len(SVARIANTS)
         full = i in _G['full']
-        accessor_test(objs, R, C, g.states[i], vi, table, col, full, random.Random(_G['seed'] * 1000003 + i))
+        accessor_test(objs, R, C, g.states[i], vi, table, col, full, random.Random(_G['seed'] * 1000003 + g.nh[i]))
     return col
 
 
@@ -636,7 +643,7 @@ def _ansi_worker(rng_):
     col, objs = Collector(), Objects()
     for i in range(lo, hi):
         name, args = g.labels[g.lab[i]]
-        ansi_transition(objs, R, C, g.states[g.pre[i]], args[0], i, g.expected(i), col)
+        ansi_transition(objs, R, C, g.states[g.pre[i]], args[0], g.vi(i), g.expected(i), col)
     return col
 
 
@@ -923,42 +930,55 @@ def random_input(rng, R, C, nitems):
 # ---------------------------------------------------------------------------------------------
 # TLC trace validation (batch idiom of tracecheck.validate; here every batch has its own Rows/Cols)
 # ---------------------------------------------------------------------------------------------
-def validate(ctx, traces, R, C, tag, procs=NPROC, timeout=1500):
-    """traces: [{'id':..., 'ev': [...]}] of one screen size -> ({id: (verdict, event index)}, stats)"""
+def validate_many(ctx, corpus, tag, timeout=1500):
+    """corpus: {(R, C): [{'id':..., 'ev': [...]}]} -> ({(R, C): {id: (verdict, event index)}}, stats).
+    One TLC process (-workers 1) per part; all sizes run side by side, at most NPROC processes at a time."""
     from concurrent.futures import ThreadPoolExecutor
-    if not traces:
-        return {}, dict(generated=0, distinct=0, wall_s=0.0, runs=0, cmd='')
-    nev = sum(len(t['ev']) for t in traces)
-    procs = max(1, min(procs, len(traces), (nev * R * C) // 200000 + 1))
-    parts = [traces[i::procs] for i in range(procs)]
-    cfg = tlc.write_cfg(os.path.join(ctx.work, '%s.cfg' % tag), spec='TraceSpec', constants=[
-        ('Rows', '= %d' % R), ('Cols', '= %d' % C), ('Chars', '<- Chars3'), ('Slack', '= 1')], invariants=['PossGood'])
+    jobs = []
+    cost = {k: sum(len(t['ev']) for t in v) * (k[0] * k[1] + 40) for k, v in corpus.items() if v}
+    unit = max(1, sum(cost.values()) // (NPROC * 2))
+    for (R, C), traces in sorted(corpus.items(), key=lambda kv: -cost.get(kv[0], 0)):
+        if not traces:
+            continue
+        nparts = max(1, min(len(traces), NPROC, (cost[(R, C)] + unit - 1) // unit))
+        cfg = tlc.write_cfg(os.path.join(ctx.work, '%s_%dx%d.cfg' % (tag, R, C)), spec='TraceSpec', constants=[
+            ('Rows', '= %d' % R), ('Cols', '= %d' % C), ('Chars', '<- Chars3'), ('Slack', '= 1')], invariants=['PossGood'])
+        for i in range(nparts):
+            jobs.append((R, C, i, cfg, traces[i::nparts]))
 
-    def one(i):
-        tf = os.path.join(ctx.work, '%s.%d.json' % (tag, i))
+    def one(job):
+        R, C, i, cfg, part = job
+        base = '%s_%dx%d.%d' % (tag, R, C, i)
+        tf = os.path.join(ctx.work, base + '.json')
         with open(tf, 'w') as f:
-            json.dump([{'id': t['id'], 'ev': t['ev']} for t in parts[i]], f)
+            json.dump([{'id': t['id'], 'ev': t['ev']} for t in part], f)
         res = tlc.run('ScreenAnsiTrace', cfg, ctx.work, workers=1, timeout=timeout, env={'TRACE_FILE': tf},
-                      outname='%s.%d.out' % (tag, i), heap='3g')
+                      outname=base + '.out', heap='3g')
         txt = open(res['out'], errors='replace').read()
         v = {}
         for m in tracecheck._VERDICT.finditer(txt):
             v[json.loads(m.group(2)) if m.group(2).startswith('"') else int(m.group(2))] = (m.group(3), int(m.group(4)))
         os.remove(tf)
-        return res, v, len(parts[i])
+        return res, v, len(part)
 
     t0 = time.time()
-    with ThreadPoolExecutor(procs) as ex:
-        results = list(ex.map(one, range(procs)))
+    with ThreadPoolExecutor(NPROC) as ex:
+        results = list(ex.map(one, jobs))
     verdicts, gen, dist = {}, 0, 0
-    for res, v, n in results:
+    for job, (res, v, n) in zip(jobs, results):
         if res['machinery_error'] or res['timed_out'] or res['violated'] or len(v) != n:
             raise tlc.TLCError('trace validation run failed (rc=%s, %d/%d verdicts, violated=%s): %s' % (
                 res['rc'], len(v), n, res['violated'], res['out']))
-        verdicts.update(v)
+        verdicts.setdefault((job[0], job[1]), {}).update(v)
         gen += res['generated']
         dist += res['distinct']
-    return verdicts, dict(generated=gen, distinct=dist, wall_s=round(time.time() - t0, 2), runs=procs, cmd=results[0][0]['cmd'])
+    return verdicts, dict(generated=gen, distinct=dist, wall_s=round(time.time() - t0, 2), runs=len(jobs),
+                          cmd=results[0][0]['cmd'] if results else '')
+
+
+def validate(ctx, traces, R, C, tag, procs=1, timeout=1500):
+    v, st = validate_many(ctx, {(R, C): traces}, tag, timeout)
+    return v.get((R, C), {}), st
 
 
 # ---------------------------------------------------------------------------------------------
@@ -1038,8 +1058,8 @@ def report_trace_failures(ctx, pid, traces, verdicts, stats):
             continue
         if v != 'ok' and v.startswith(pid + ':'):
             e = t['ev'][at - 2] if 2 <= at <= len(t['ev']) + 1 else None
-            ctx.fail(v, t['meta'], detail={'event_index': at - 1, 'event': e},
-                     signature={'method': (e or {}).get('m'), 'rows': t['meta']['rows'], 'cols': t['meta']['cols']})
+            stats.setdefault('fails', []).append((v, t['meta'], {'event_index': at - 1, 'event': e}, {
+                'method': (e or {}).get('m'), 'rows': t['meta']['rows'], 'cols': t['meta']['cols']}))
         elif v != 'ok':
             raise tlc.TLCError('trace %s: verdict %s does not belong to %s' % (t['id'], v, pid))
 
@@ -1061,7 +1081,9 @@ def run_c19(ctx):
         seen_actions.update(graph_coverage(g, 'C19'))
         first = {}
         for i, st in enumerate(g.states):         # all argument tuples of get_region once per (grid, variant), a sample otherwise
-            first.setdefault((st[0], i % len(SVARIANTS)), i)
+            k = (st[0], g.nh[i] % len(SVARIANTS))
+            if k not in first or (g.nh[i], st) < (g.nh[first[k]], g.states[first[k]]):
+                first[k] = i
         shared = {'graph': g, 'R': R, 'C': C, 'cwd': ctx.work, 'table': table, 'seed': ctx.seed, 'full': set(first.values())}
         col = pool_map(_screen_worker, len(g.pre), shared)
         ntr = col.count['evaluations']
@@ -1091,13 +1113,13 @@ def run_c19(ctx):
     k = next(i for i in range(len(g.pre)) if g.labels[g.lab[i]][0] == 'PutAbs' and g.pre[i] != g.post[i])
     good = g.expected(k)
     name, args = g.labels[g.lab[k]]
-    screen_transition(Objects(), R, C, g.states[g.pre[k]], name, args, k, good, probe)
+    screen_transition(Objects(), R, C, g.states[g.pre[k]], name, args, g.vi(k), good, probe)
     ok_clean = not probe.fail
     bad = [(e[0], (e[1][0] % R + 1, e[1][1]), e[2], e[3]) if R > 1 else (e[0], (e[1][0], e[1][1] % C + 1), e[2], e[3]) for e in good]
-    screen_transition(Objects(), R, C, g.states[g.pre[k]], name, args, k, bad, probe)
+    screen_transition(Objects(), R, C, g.states[g.pre[k]], name, args, g.vi(k), bad, probe)
     bad2 = [(g.states[g.pre[k]][0],) + e[1:] for e in good]
     n1 = len(probe.fail)
-    screen_transition(Objects(), R, C, g.states[g.pre[k]], name, args, k, bad2, probe)
+    screen_transition(Objects(), R, C, g.states[g.pre[k]], name, args, g.vi(k), bad2, probe)
     if R * C == 1 or not ok_clean or n1 == 0 or len(probe.fail) == n1:
         raise tlc.TLCError('C19 self-test: a corrupted expected post-state was not noticed')
     ctx.note('binding self-test: expected cursor / expected grid of one transition corrupted -> %s' % ', '.join(
@@ -1108,20 +1130,19 @@ def run_c19(ctx):
     gen_s = time.time() - t0
     tstats = {'verdicts': Counter(), 'drift_samples': [], 'tlc_states': 0, 'traces': 0, 'events': 0, 'cmd': ''}
     t0 = time.time()
+    allv, st = validate_many(ctx, corpus, 'st')
+    tstats['tlc_states'], tstats['cmd'] = st['distinct'], st['cmd']
     for (R, C), traces in corpus.items():
-        verdicts, st = validate(ctx, traces, R, C, 'st_%dx%d' % (R, C))
-        report_trace_failures(ctx, 'C19', traces, verdicts, tstats)
-        tstats['tlc_states'] += st['distinct']
+        report_trace_failures(ctx, 'C19', traces, allv[(R, C)], tstats)
         tstats['traces'] += len(traces)
         tstats['events'] += sum(len(t['ev']) for t in traces)
-        tstats['cmd'] = st['cmd']
     ctx.note('%d random operation sequences (%d events) on %s executed in %.0fs and validated by TLC in %.0fs: %s' % (
         tstats['traces'], tstats['events'], ', '.join('%dx%d' % s for s in corpus), gen_s, time.time() - t0,
         ', '.join('%s x%d' % kv for kv in sorted(tstats['verdicts'].items()))))
     # binding self-test 2: a corrupted observation in a recorded trace must be rejected
-    st2 = trace_self_test(ctx, corpus, 'C19')
+    st2 = trace_self_test(ctx, 'C19')
     ctx.note('binding self-test (trace): ' + ', '.join('%s -> %s' % kv for kv in sorted(st2.items())))
-    for clause, case, detail, sig in total.fail:
+    for clause, case, detail, sig in total.fail + tstats.get('fails', []):      # minimal (per-transition) cases first
         ctx.fail(clause, case, detail, sig)
     extra = sum(total.nfail.values()) - len(total.fail)
     if extra:
@@ -1156,33 +1177,44 @@ def run_c19(ctx):
     return status
 
 
-def trace_self_test(ctx, corpus, pid):
+def trace_self_test(ctx, pid):
+    """a fixed run of the real object (operations the suspected defects do not touch) must be accepted; the same trace
+    with one observed field corrupted must be rejected with the clause of that field"""
     import copy
-    size = (3, 5) if (3, 5) in corpus else sorted(corpus)[0]
-    cands = [t for t in corpus[size] if len(t['ev']) >= 6 and all('obs' in e and e['obs']['raised'] == '' for e in t['ev'][:6])]
-    if not cands:
-        cands = [t for ts in corpus.values() for t in ts if len(t['ev']) >= 6 and all('obs' in e for e in t['ev'][:6])]
-        size = (cands[0]['meta']['rows'], cands[0]['meta']['cols'])
-    t = cands[0]
-    clean = copy.deepcopy(t); clean['id'] = 'clean'
+    R, C = 3, 5
+    if pid == 'C19':
+        script = [('op', 'FillRegion', [1, 2, 2, 4], 'x'), ('op', 'CursorHome', [2, 3], None), ('op', 'Put', [], u'\xe9'),
+                  ('op', 'InsertAbs', [1, 1], 'x'), ('op', 'Cr', [], None), ('op', 'Lf', [], None),
+                  ('op', 'CursorForward', [2], None), ('acc', 'dump', []), ('op', 'Lf', [], None), ('op', 'Lf', [], None)]
+        t = {'id': 'clean', 'ev': run_screen_script(R, C, 'latin-1', script)}
+    else:
+        syms = ['x', 'y', 'CR', 'LF', 'ESC', '[', '2', ';', '3', 'H', 'x', 'ESC', '[', 'K', 'ESC', '7', 'LF', 'LF', 'x', 'ESC', '8']
+        t = {'id': 'clean', 'ev': run_feed(R, C, 'utf-8', [(SYMCHR.get(x, x).encode('ascii'), [x]) for x in syms])}
     a = copy.deepcopy(t); a['id'] = 'corrupt-cursor'
     e = a['ev'][3]['obs']
-    e['cur'] = [e['cur'][0], e['cur'][1] % size[1] + 1] if size[1] > 1 else [e['cur'][0] % size[0] + 1, e['cur'][1]]
+    e['cur'] = [e['cur'][0], e['cur'][1] % C + 1]
     b = copy.deepcopy(t); b['id'] = 'corrupt-cell'
-    row = [('x' if c != 'x' else ' ') for c in ([' '] * size[1])]
-    b['ev'][2]['obs']['rows'] = [[1, row]]
+    b['ev'][5]['obs']['rows'] = [[3, ['y'] * C]]
     c = copy.deepcopy(t); c['id'] = 'lost-row'
-    c['ev'][4]['obs']['nrows'] = size[0] - 1
-    v, _ = validate(ctx, [clean, a, b, c], size[0], size[1], 'selftest', procs=1)
+    c['ev'][4]['obs']['nrows'] = R - 1
+    extra = []
+    if pid == 'C18':
+        d = copy.deepcopy(t); d['id'] = 'residue'
+        d['ev'][9]['obs']['stack'] = [2]                  # after the final byte H
+        f = copy.deepcopy(t); f['id'] = 'cursor-off-screen'
+        f['ev'][10]['obs']['cur'] = [R + 1, 1]
+        extra = [d, f]
+    v, _ = validate(ctx, [t, a, b, c] + extra, R, C, 'selftest')
     res = {k: v[k][0] for k in v}
     if pid == 'C19':
-        bad = [k for k in ('corrupt-cursor', 'corrupt-cell', 'lost-row') if res[k] == 'ok']
+        want = {'clean': ('ok',), 'corrupt-cursor': ('C19:insert_abs-cursor',), 'corrupt-cell': ('C19:lf-frame',),
+                'lost-row': ('C19:cr-shape',)}
     else:
-        bad = [k for k in ('corrupt-cursor', 'corrupt-cell') if not res[k].startswith('drift')]
-        if not res['lost-row'].startswith('C18:shape'):
-            bad.append('lost-row')
+        want = {'clean': ('ok',), 'corrupt-cursor': ('drift:cursor',), 'corrupt-cell': ('drift:grid',), 'lost-row': ('C18:shape',),
+                'residue': ('C18:residue',), 'cursor-off-screen': ('C18:cursor',)}
+    bad = [k for k in want if res.get(k) not in want[k]]
     if bad:
-        raise tlc.TLCError('binding self-test: corrupted trace(s) %s accepted (%s)' % (bad, res))
+        raise tlc.TLCError('binding self-test: trace verdicts %s, expected %s' % (res, want))
     return res
 
 
@@ -1396,23 +1428,22 @@ def run_c18(ctx):
     gen_s = time.time() - t0
     tstats = {'verdicts': Counter(), 'drift_samples': [], 'tlc_states': 0, 'traces': 0, 'events': 0, 'cmd': ''}
     t0 = time.time()
+    allv, st = validate_many(ctx, corpus, 'at')
+    tstats['tlc_states'], tstats['cmd'] = st['distinct'], st['cmd']
     for (R, C), traces in corpus.items():
-        verdicts, st = validate(ctx, traces, R, C, 'at_%dx%d' % (R, C))
-        report_trace_failures(ctx, 'C18', traces, verdicts, tstats)
-        tstats['tlc_states'] += st['distinct']
+        report_trace_failures(ctx, 'C18', traces, allv[(R, C)], tstats)
         tstats['traces'] += len(traces)
         tstats['events'] += sum(len(t['ev']) for t in traces)
-        tstats['cmd'] = st['cmd']
     ctx.note('%d recorded runs (%d write() events) on %s validated by TLC in %.0fs (recording %.0fs): %s' % (
         tstats['traces'], tstats['events'], ', '.join('%dx%d' % s for s in sorted(corpus)), time.time() - t0, gen_s,
         ', '.join('%s x%d' % kv for kv in sorted(tstats['verdicts'].items()))))
-    st2 = trace_self_test(ctx, {k: [t for t in v if str(t['id']).startswith('r')] for k, v in corpus.items()}, 'C18')
+    st2 = trace_self_test(ctx, 'C18')
     ctx.note('binding self-test (trace): ' + ', '.join('%s -> %s' % kv for kv in sorted(st2.items())))
     if ctx.drift:
         d = (total.drift + tstats['drift_samples'])[:3]
         print('SPEC-DRIFT property=C18: %d disagreement(s) with AnsiFsm that keep the stated property, e.g. %s' % (
             ctx.drift, json.dumps(d, default=str)[:900]))
-    for clause, case, detail, sig in total.fail:
+    for clause, case, detail, sig in total.fail + tstats.get('fails', []):      # minimal (per-transition) cases first
         ctx.fail(clause, case, detail, sig)
     extra = sum(total.nfail.values()) - len(total.fail)
     if extra:
